@@ -189,6 +189,7 @@ theorem checkRR_spec (e : Engines) (hwf : EnginesWF e) (c : Conf)
       | none => intro h; subst h; intro r h'; cases h'
       | some ip => intro h; exact h
   | soa mb => exact ⟨none, by simp [checkRR, stripC, stripRR], by simp [firstBlocked, revealed]⟩
+  | ptr tg => exact ⟨none, by simp [checkRR, stripC, stripRR], by simp [firstBlocked, revealed]⟩
   | other ty d => exact ⟨none, by simp [checkRR, stripC, stripRR], by simp [firstBlocked, revealed]⟩
 
 /-- No record reveals a blocked name: the loop runs through, leaving every
